@@ -103,8 +103,39 @@ func isFreshBase(v ssa.Value) bool {
 	return false
 }
 
-// guardedLoadField: v is a load of a field of a jiva struct (directly).
+// guardedLoadField: v is a load of a field of a jiva struct — directly, or handed out by a
+// getter (a same-module function whose every return is such a load: `func (c *Controller)
+// ListReplicas() []types.Replica { return c.replicas }`): the slice / map returned IS the
+// shared container, and touching its content is touching the field.
 func guardedLoadField(v ssa.Value) (*ssa.FieldAddr, bool) {
+	if cl, ok := v.(*ssa.Call); ok {
+		if g := cl.Call.StaticCallee(); g != nil && isJivaFn(g) && len(g.Blocks) > 0 && len(g.Blocks) <= 3 {
+			var fa *ssa.FieldAddr
+			n := 0
+			for _, r := range Returns(g) {
+				n++
+				if len(r.Results) != 1 {
+					return nil, false
+				}
+				u, ok := r.Results[0].(*ssa.UnOp)
+				if !ok || u.Op != token.MUL {
+					return nil, false
+				}
+				f, ok := u.X.(*ssa.FieldAddr)
+				if !ok || fieldKeyOf(f) == "" || (fa != nil && fieldKeyOf(fa) != fieldKeyOf(f)) {
+					return nil, false
+				}
+				fa = f
+			}
+			if fa != nil && n > 0 {
+				switch fa.X.Type().Underlying().(*types.Pointer).Elem().Underlying().(*types.Struct).Field(fa.Field).Type().Underlying().(type) {
+				case *types.Slice, *types.Map:
+					return fa, true
+				}
+			}
+		}
+		return nil, false
+	}
 	u, ok := v.(*ssa.UnOp)
 	if !ok || u.Op != token.MUL {
 		return nil, false
@@ -182,6 +213,14 @@ func gbClassify(in ssa.Instruction) (fa *ssa.FieldAddr, write, elem, ok bool) {
 		if b, isB := x.Call.Value.(*ssa.Builtin); isB && b.Name() == "delete" && len(x.Call.Args) > 0 {
 			if f, ok2 := guardedLoadField(x.Call.Args[0]); ok2 {
 				return f, true, true, true
+			}
+		}
+		// append(dst, src...) / copy(dst, src) read the content of src
+		if b, isB := x.Call.Value.(*ssa.Builtin); isB && (b.Name() == "append" || b.Name() == "copy") && len(x.Call.Args) == 2 {
+			if f, ok2 := guardedLoadField(x.Call.Args[1]); ok2 {
+				if _, isSlice := x.Call.Args[1].Type().Underlying().(*types.Slice); isSlice {
+					return f, false, true, true
+				}
 			}
 		}
 	}
